@@ -254,6 +254,10 @@ fn run(ctx: &Ctx) -> Part {
                 let mut hist = Vec::new();
                 for (w, h) in [(16u32, 7u32), (26, 4), (33, 4), (7, 16), (25, 5), (30, 30)] {
                     for (x, y) in [(0i32, 0i32), (1, 2)] {
+                        let (lw, lh) = cfg.geo().lsize();
+                        if x as u32 + w > lw || y as u32 + h > lh {
+                            continue; // in-bounds calls only (set_pixels with out-of-range arguments is undefined)
+                        }
                         let r = Rect { x, y, w, h };
                         hist.push(Op::DrawIter(Pixels::Syms { syms: vec![Sym::Block { x, y, w, h }], base: 0x1000 }));
                         hist.push(Op::FillContiguous { r, colors: Colors::Coded { base: 0x2000, len: Some((w * h) as u64) } });
